@@ -45,7 +45,8 @@ def select(prop, t, sd):
     rnd = [corpus.random_grammar(sd, i, rich) for rich in (0, 1, 2) for i in range(nrnd)]
     rec = corpus.recovery_family()
     if t == 'quick': rec = rec[sd % 2::2]
-    gs = cur + cov + nm + rec + rnd
+    pf = corpus.parts_family()
+    gs = cur + cov + nm + rec + pf + rnd
     if prop in ('C04', 'C05'):
         gs = [g for g in gs if not (g.features() & {'pred', 'assert'})]
     if prop == 'C08':
